@@ -41,6 +41,13 @@ type FuncVal struct {
 }
 type TupleVal struct{ v []Val }
 
+// pendingGo is a goroutine that has been spawned but not run yet (lazy mode of
+// the sequentialised goroutine model).
+type pendingGo struct {
+	fn   FuncVal
+	args []Val
+}
+
 // ChanObj is a channel of the sequentialised goroutine model (heap object;
 // a channel value is a PtrVal to it).
 type ChanObj struct {
@@ -191,6 +198,8 @@ type State struct {
 	panicOK bool
 	mapMode int
 	mapUsed bool // a non-default map iteration order was selected on this path
+	goLazy  bool // vfGoMode(1): goroutines are queued and run when the spawner waits
+	pending []pendingGo
 	writerN int // C19: index of next harness-writer call
 	siteCtr int // per-path counter naming fork sites
 	reached []string
@@ -278,6 +287,7 @@ func (st *State) clone() *State {
 	if st.par != nil {
 		n.par = st.par.clone()
 	}
+	n.pending = append([]pendingGo(nil), st.pending...)
 	return &n
 }
 
